@@ -858,7 +858,7 @@ func evalServerSub(op string, args []string) string {
 	if op == "nilcfg" && len(args) == 1 {
 		return runNilCfg()
 	}
-	if (op == "dups" || op == "downs") && len(args) == 1 {
+	if (op == "dups" || op == "downs" || op == "finishes") && len(args) == 1 {
 		args = []string{op, args[0], "-"}
 	} else if op != "scenario" || len(args) != 3 {
 		return "UNKNOWN-OP"
@@ -892,6 +892,9 @@ func evalServerInproc(args []string) string {
 	}
 	if args[0] == "downs" {
 		return runDowns(atoi(args[1]))
+	}
+	if args[0] == "finishes" {
+		return runFinishes(atoi(args[1]))
 	}
 	skip := args[0] == "1"
 	if args[2] == "-" {
@@ -1062,6 +1065,10 @@ func genC07(g *Gen, tier string, emit func(op string, args ...string)) {
 	for _, n := range []int{2, 2, 3, 4, 8, 16} {
 		emit("downs", itoa(n))
 	}
+	// "no data race": the clean-ups of handlers that return at the same instant
+	for _, n := range []int{4, 16, 48} {
+		emit("finishes", itoa(n))
+	}
 	sc := func(cmds []string) {
 		emit("scenario", "0", "0:73", strings.Join(append(cmds, "Z"), ","))
 	}
@@ -1131,6 +1138,9 @@ func genC06(g *Gen, tier string, emit func(op string, args ...string)) {
 		emit("dups", itoa(g.Pick(2, 3, 5, 8, 16)))
 	}
 	emit("nilcfg", "-")
+	for _, k := range []int{2, 3, 8, 16, 32} {
+		emit("finishes", itoa(k))
+	}
 	// a handler that answers first and goes on working: the request stays in flight until the handler RETURNS - a
 	// retransmission that arrives after the reply is still a duplicate, and the identifier is served again afterwards
 	{
@@ -1446,6 +1456,49 @@ func runDups(n int, w *os.File) string {
 	}
 	if w != nil {
 		w.WriteString(out)
+	}
+	return out
+}
+
+// runFinishes: n different requests (identifiers 1..n) in flight on one Serve call; the handlers are released at
+// the same instant, so their deferred clean-ups (the table of requests in flight, the active count) run
+// concurrently.  Forty rounds; the first deviating round is reported.
+func runFinishes(n int) string {
+	if n < 2 || n > 64 {
+		return "BAD-CASE"
+	}
+	want := fmt.Sprintf("starts=%d shutdown=nil", n)
+	out := want
+	for round := 0; round < 40 && out == want; round++ {
+		var starts, dones int32
+		release := make(chan struct{})
+		conn := &dupConn{in: make(chan []byte), closed: make(chan struct{})}
+		srv := &radius.PacketServer{SecretSource: radius.StaticSecretSource([]byte("s")), Handler: radius.HandlerFunc(func(w radius.ResponseWriter, r *radius.Request) {
+			atomic.AddInt32(&starts, 1)
+			<-release
+		})}
+		radius.VerifSetHook(func(p string) {
+			if p == "dgram.done" {
+				atomic.AddInt32(&dones, 1)
+			}
+		})
+		go srv.Serve(conn)
+		for i := 0; i < n; i++ {
+			conn.in <- accessRequest(byte(1 + i))
+		}
+		for deadline := time.Now().Add(labWait); time.Now().Before(deadline) && int(atomic.LoadInt32(&starts)) < n; {
+			time.Sleep(200 * time.Microsecond)
+		}
+		s := atomic.LoadInt32(&starts)
+		close(release)
+		ctx, cancel := context.WithTimeout(context.Background(), labWait)
+		serr := srv.Shutdown(ctx)
+		cancel()
+		for quiesce := time.Now().Add(labWait); time.Now().Before(quiesce) && int(atomic.LoadInt32(&dones)) < n; {
+			time.Sleep(100 * time.Microsecond)
+		}
+		radius.VerifSetHook(nil)
+		out = fmt.Sprintf("starts=%d shutdown=%s", s, errName(serr))
 	}
 	return out
 }
